@@ -166,7 +166,7 @@ PROPS = {
     ),
     'C11': dict(
         title='Meta-evaluation is sealed and equivalent to inlining its result',
-        verus_units=['compile', 'state'],
+        verus_units=['compile', 'state', 'build'],
         kani_groups=[],
         design_ref='DESIGN.md section 5 / C11',
         technique='Verus contracts on context_open/context_close (both loops verbatim), cell_ref_for_mode/swap_cell_ref/alloc_heap, code_emit_value',
